@@ -82,7 +82,7 @@ def build(spec):
             ict_nodes[i] = ICTNode(f"N{i}")
     if automatic:
         C = MainController(name="C1", ict_node=ict_nodes.get(0) if ict else None,
-                           hardware_fail_rate_per_year=0, software_fail_rate_per_year=0,
+                           hardware_fail_rate_per_year=float(c.get("hw_rate", 0)), software_fail_rate_per_year=float(c.get("sw_rate", 0)),
                            manual_sectioning_time=Time(N(c["T"]), TimeUnit.HOUR))
     else:
         C = ManualMainController(name="C1", sectioning_time=Time(N(c["T"]), TimeUnit.HOUR))
